@@ -11,6 +11,7 @@ import Drv.Sched
 import Drv.DSet
 import Drv.Student
 import Drv.Chi2
+import Drv.Table
 open Lean
 
 def dispatch (model : String) (j : Json) : Except String Json :=
@@ -21,6 +22,7 @@ def dispatch (model : String) (j : Json) : Except String Json :=
   | "dset" => Drv.DSet.run j
   | "student" => Drv.Student.run j
   | "chi2" => Drv.Chi2.run j
+  | "table" => Drv.Table.run j
   | "bonf" => Drv.Bonf.run j
   | "depgraph" => Drv.DepGraph.run j
   | "envp" => Drv.EnvP.run j
